@@ -23,6 +23,7 @@ void ent_seed(uint64_t seed);            // (re)start this thread's deterministi
 void ent_fail_at(long draw_index);       // 1-based draw index that fails (0 = never); counted from the last ent_seed/ent_reset
 void ent_reset_counters(void);
 void ent_push32(const uint8_t v[32]);    // the next 32-byte draw(s) deliver these bytes (up to 8 queued; cleared by ent_seed)
+void ent_fail_from(long i, int err);    // from the i-th draw on EVERY draw fails with errno err (a source that stays down: EINTR / EAGAIN / EIO for ever); 0 = off
 void ent_high_for(long k);               // the next k 32-byte draws deliver FF..FF (out of range for every scalar draw); cleared by ent_seed
 long ent_draws(void);                    // draws since reset (including a failed one)
 long ent_bytes(void);                    // bytes delivered since reset
